@@ -17,10 +17,25 @@ type CAKey struct {
 	Cipher int // 1..4 (cipher of the ChipAuthenticationInfo; 1 = 3DES also for MSE:Set KAT)
 	// NoPrivateKey: the chip does not hold the private key (clone); it answers but derives keys from garbage.
 	NoPrivateKey bool
+	// AlsoCiphers: further suites advertised for the same key (several ChipAuthenticationInfo entries, one key)
+	AlsoCiphers []int
+}
+
+func (k *CAKey) offers(cipher int) bool {
+	if cipher == k.Cipher {
+		return true
+	}
+	for _, c := range k.AlsoCiphers {
+		if c == cipher {
+			return true
+		}
+	}
+	return false
 }
 
 type caState struct {
 	key                 *CAKey
+	cipher              int // suite named by MSE:Set AT (one of the key's advertised suites)
 	awaitGA             bool
 	pendingConfirm      bool
 	switchAfterResponse *refcrypto.SM
@@ -61,17 +76,17 @@ func (c *Chip) mseSetATCA(items []tlvItem) ([]byte, uint16) {
 	if k == nil {
 		return nil, 0x6A88
 	}
-	if int(oid[len(oid)-1]) != k.Cipher {
+	if !k.offers(int(oid[len(oid)-1])) {
 		return nil, 0x6A80
 	}
 	if c.SM == nil && !c.NoAccessRules {
 		return nil, 0x6982
 	}
-	c.ca = &caState{key: k, awaitGA: true}
+	c.ca = &caState{key: k, cipher: int(oid[len(oid)-1]), awaitGA: true}
 	return nil, 0x9000
 }
 
-func (c *Chip) caAgree(k *CAKey, pk []byte) bool {
+func (c *Chip) caAgree(k *CAKey, cipher int, pk []byte) bool {
 	curve := k.Key.Curve
 	x, y, ok := curve.DecodePoint(pk)
 	if !ok {
@@ -86,12 +101,12 @@ func (c *Chip) caAgree(k *CAKey, pk []byte) bool {
 	if kx == nil {
 		return false
 	}
-	alg, _ := algOfCipher(k.Cipher)
+	alg, _ := algOfCipher(cipher)
 	secret := fe2os(curve, kx)
 	c.Truth.CALastK = secret
 	sm := refcrypto.NewSM(alg, refcrypto.KDF(secret, 1, alg), refcrypto.KDF(secret, 2, alg), make([]byte, alg.Block()))
 	if c.ca == nil {
-		c.ca = &caState{key: k}
+		c.ca = &caState{key: k, cipher: cipher}
 	}
 	c.ca.awaitGA = false
 	c.ca.switchAfterResponse = sm
@@ -107,7 +122,7 @@ func (c *Chip) generalAuthCA(cmd *ref7816.Cmd) ([]byte, uint16) {
 		c.ca = nil
 		return nil, 0x6A80
 	}
-	if !c.caAgree(st.key, pk) {
+	if !c.caAgree(st.key, st.cipher, pk) {
 		c.ca = nil
 		return nil, 0x6A80
 	}
@@ -125,13 +140,13 @@ func (c *Chip) mseSetKAT(items []tlvItem) ([]byte, uint16) {
 	if k == nil {
 		return nil, 0x6A88
 	}
-	if k.Cipher != 1 {
+	if !k.offers(1) {
 		return nil, 0x6A80 // MSE:Set KAT is defined for 3DES only
 	}
 	if c.SM == nil && !c.NoAccessRules {
 		return nil, 0x6982
 	}
-	if !c.caAgree(k, pk) {
+	if !c.caAgree(k, 1, pk) {
 		c.ca = nil
 		return nil, 0x6A80
 	}
